@@ -3,6 +3,9 @@
 //! all fields are decimal integers so the model side (Coq, N/Z) can be diffed without any float formatting.
 mod rng;
 mod c18;
+mod f32ops;
+mod treegen;
+mod c03;
 
 fn main() {
     let args: Vec<String> = std::env::args().collect();
@@ -13,6 +16,8 @@ fn main() {
     let rest = &args[2..];
     match args[1].as_str() {
         "c18" => c18::main(rest),
+        "f32" => f32ops::main(rest),
+        "c03" => c03::main(rest),
         other => {
             eprintln!("unknown property {other}");
             std::process::exit(2);
